@@ -499,7 +499,7 @@ impl<'a> G<'a> {
     }
     fn call_stmt(&mut self) { self.user_call(0); if !self.out.ends_with(')') { /* argless */ } self.ows_no_paren(); self.p(";"); }
     fn ows_no_paren(&mut self) { if self.u.coin(1, 3) { self.p(" "); } }
-    fn local_global(&mut self) { self.feat("local-global"); let k = self.pick(&["%local", "%global", "%LOCAL"]); self.p(k); self.rws(); if self.u.coin(1, 4) { self.p("/ readonly "); self.name_expr(); self.ows(); self.p("="); self.ows(); self.text_expr(); } else { let n = 1 + self.u.below(3); for i in 0..n { if i > 0 { self.p(" "); } self.name_expr(); } } self.mark(";", MK::Delim("SEMI", false)); }
+    fn local_global(&mut self) { self.feat("local-global"); let k = self.pick(&["%local", "%global", "%LOCAL"]); self.p(k); self.rws(); if self.u.coin(1, 4) { let ro = self.pick(&["/ readonly ", "/ READONLY ", "/readonly "]); self.p(ro); self.name_expr(); self.ows(); self.del_mark("=", "ASSIGN", "MissingExpectedAssign", false); self.ows(); self.text_expr(); } else { let n = 1 + self.u.below(3); for i in 0..n { if i > 0 { self.p(" "); } self.name_expr(); } } self.mark(";", MK::Delim("SEMI", false)); }
     fn goto_label(&mut self) { self.feat("goto-label"); if self.u.coin(1, 2) { self.pk("%goto"); self.rws(); if self.u.coin(1, 4) { self.mvar(false); } else { let l = self.pick(&["done", "lbl1", "é_l"]); self.p(l); } self.ows(); self.p(";"); } else { if !self.out.is_empty() && !self.out.ends_with([';', '\n', ' ']) { self.p(" "); } let l = self.pick(&["%done", "%lbl1", "%next_step"]); self.p(l); self.ows(); self.p(":"); self.plain_ws(); self.simple_macro_stmt(); } }
     // free-form option text of the statement-option statements (lexed until the ';'): words, key=value, quoted strings,
     // macro variables, calls, slashes, numbers, comments
